@@ -24,7 +24,9 @@ func init() { harness.Register(c11{}) }
 // Payload describes adversarial bytes compactly (deeply nested frames are not stored verbatim).
 type Payload struct {
 	Raw   world.Bin `json:"raw,omitempty"`
-	Nest  int       `json:"nest,omitempty"`  // Nest x "*1\r\n" followed by Raw
+	Nest  int       `json:"nest,omitempty"`  // Nest x Unit (default "*1\r\n") followed by Raw
+	Unit  string    `json:"unit,omitempty"`  // one nesting level, e.g. "*2\r\n*-1\r\n": a null array, then the next level
+	Pre   int       `json:"pre,omitempty"`   // Pre x "*-1\r\n" (complete null-array frames) before everything else
 	Fill  int       `json:"fill,omitempty"`  // Fill x 'a' appended after Raw (long inline lines / big bulk bodies)
 	Tail  world.Bin `json:"tail,omitempty"`  // appended last
 	Close bool      `json:"close,omitempty"` // client adversary: close after sending
@@ -33,8 +35,15 @@ type Payload struct {
 
 func (p Payload) Bytes() []byte {
 	var b bytes.Buffer
+	for i := 0; i < p.Pre; i++ {
+		b.WriteString("*-1\r\n")
+	}
+	unit := p.Unit
+	if unit == "" {
+		unit = "*1\r\n"
+	}
 	for i := 0; i < p.Nest; i++ {
-		b.WriteString("*1\r\n")
+		b.WriteString(unit)
 	}
 	b.Write(p.Raw)
 	for i := 0; i < p.Fill; i++ {
@@ -78,12 +87,32 @@ var clientGarbage = []string{
 	"GET\tk\r\n", "get k\n", "*2\r\n$3\r\nGET\r\n$1\r\n", "$", "*", "*1", "*1\r", "*1\r\n$", "*1\r\n$4\r\nPI",
 }
 
+// genNestShape varies what one nesting level looks like: siblings that are null arrays, null bulks or integers
+// before the nested element, and complete null-array frames ahead of the nested frame (a decoder that keeps a
+// per-connection depth counter must come out of every frame, and every element, with the counter it went in with).
+func genNestShape(r *simhook.Rand, p *Payload, client bool) {
+	k := r.Intn(5)
+	if k == 2 && !client {
+		// a backend that sends frames nobody asked for shifts every later reply on that connection: not the proxy's doing
+		k = 0
+	}
+	switch k {
+	case 0:
+		p.Unit = "*2\r\n*-1\r\n"
+	case 1:
+		p.Unit = []string{"*2\r\n$-1\r\n", "*2\r\n:7\r\n", "*3\r\n*0\r\n*-1\r\n"}[r.Intn(3)]
+	case 2:
+		p.Pre = []int{1, 31, 33, 5000, 200000}[r.Intn(5)]
+	}
+}
+
 func genClientAdversary(r *simhook.Rand) Payload {
 	var p Payload
 	switch r.Intn(12) {
 	case 0: // deep nesting
 		p.Nest = []int{2, 9, 33, 100, 1000, 10000, 100000, 1000000}[r.Intn(8)]
 		p.Raw = world.Bin(":1\r\n")
+		genNestShape(r, &p, true)
 	case 1: // very long inline line
 		p.Raw = world.Bin("GET ")
 		p.Fill = []int{4095, 4096, 4097, 65536, 1 << 20}[r.Intn(5)]
@@ -193,6 +222,7 @@ func genCorrupt(r *simhook.Rand, nodes int) Corrupt {
 		c.Match = []string{"readonly", "asking", "get", "cluster"}[r.Intn(4)]
 		c.With.Nest = []int{3, 40, 1000, 100000, 1000000}[r.Intn(5)]
 		c.With.Raw = world.Bin(":1\r\n")
+		genNestShape(r, &c.With, false)
 	default:
 		c.Match = []string{"get", "set", "readonly", "cluster", "del", "scan", "asking"}[r.Intn(7)]
 		g := backendGarbage["*"]
@@ -217,9 +247,17 @@ func (p c11) Gen(r *simhook.Rand, tier string, idx int) harness.Scenario {
 			sc.Env.Preload = append(sc.Env.Preload, world.KV{K: world.Bin(k), V: world.Bin(uniqueVal("pre", n*10+i, 12))})
 		}
 	}
+	if r.Chance(1, 3) {
+		// compression on: a command that is refused in compress mode is answered by a filter of the backend writer,
+		// right where a corrupted backend connection is being torn down
+		sc.Env.Compression = &world.Compression{Enable: true, Threshold: 64}
+	}
 	canary := ConnScript{Name: "canary"}
 	for i := 0; i < 3+r.Intn(8); i++ {
 		switch r.Intn(4) {
+		case 1:
+			canary.Reqs = append(canary.Reqs, world.Request{Args: world.Bins("GET", all[r.Intn(len(all))])})
+			canary.Reqs = append(canary.Reqs, world.Request{Args: world.Bins("SETBIT", "junk:"+all[r.Intn(len(all))], "7", "1")})
 		case 0:
 			canary.Reqs = append(canary.Reqs, world.Request{Args: world.Bins("SCAN", "0"), Wait: true})
 		default:
@@ -246,6 +284,14 @@ func (p c11) Gen(r *simhook.Rand, tier string, idx int) harness.Scenario {
 		sc.Class = "both"
 		sc.Adversaries = append(sc.Adversaries, genClientAdversary(r))
 		sc.Corrupt = append(sc.Corrupt, genCorrupt(r, m))
+	}
+	if sc.Env.Compression != nil && len(sc.Corrupt) > 0 && r.Chance(1, 2) {
+		// aim the corruption at a pipelined canary: the backend connection is torn down by the reader while the
+		// writer still holds requests, one of them answered by the compression filter
+		for i := range sc.Conns[0].Reqs {
+			sc.Conns[0].Reqs[i].Wait = false
+		}
+		sc.Corrupt[0].Match, sc.Corrupt[0].Nth = "get", 1
 	}
 	// the canary's second round, after the adversaries are done and turned honest
 	pr := ConnScript{Name: "p-canary"}
